@@ -189,6 +189,9 @@ func boundsRule(c *Ctx, r *Report, rule string, what string, roots ...string) {
 				}
 			}
 			p := ReachTargetAvoiding(fn, a.Instr, lenGuardsFull(a.X, a.Need), fresh)
+			if p != nil && minLenAt(fn, a.X, a.Instr, a.Need) >= a.Need {
+				p = nil // the length tests on the way accumulate to the bound (e.g. len != 0 and len != 1)
+			}
 			r.Check(p == nil, rule, cons, fmt.Sprintf("dominated by a test implying len >= %d", a.Need),
 				fmt.Sprintf("%s: %s with constant bound needs len >= %d but no dominating length test implies it: a shorter input panics", what, a.Desc, a.Need), append([]string{c.Pos(a.Instr.Pos())}, c.pathString(p)...)...)
 		}
@@ -221,4 +224,116 @@ func freshLenAtLeast(v ssa.Value, need int64) bool {
 		}
 	}
 	return false
+}
+
+// minLenAt computes a lower bound of len(x) that holds whenever target is
+// reached: a forward dataflow over the CFG in which every branch on a
+// comparison of len(x) with a constant refines the bound on its two edges
+// (so "len == 0" false, then "len == 1" false gives 2). The result is capped at limit.
+func minLenAt(fn *ssa.Function, x ssa.Value, target ssa.Instruction, limit int64) int64 {
+	isLenOf := func(v ssa.Value) bool {
+		call, ok := v.(*ssa.Call)
+		if !ok || calleeName(&call.Call) != "builtin.len" {
+			return false
+		}
+		a := call.Call.Args[0]
+		return a == x || (vpath(a) != "" && vpath(a) == vpath(x))
+	}
+	const dead = int64(1 << 40)
+	// refine returns the smallest v >= lb with rel(v), or dead if none up to limit+1
+	refine := func(lb int64, rel func(v int64) bool) int64 {
+		for v := lb; v <= limit+1; v++ {
+			if rel(v) {
+				return v
+			}
+		}
+		// relations are eventually constant beyond the compared constant: test a large value
+		if rel(limit + 2) {
+			return limit + 1
+		}
+		return dead
+	}
+	holds := func(op token.Token, a, b int64) bool {
+		switch op {
+		case token.LSS:
+			return a < b
+		case token.LEQ:
+			return a <= b
+		case token.GTR:
+			return a > b
+		case token.GEQ:
+			return a >= b
+		case token.EQL:
+			return a == b
+		case token.NEQ:
+			return a != b
+		}
+		return true
+	}
+	edge := func(b *ssa.BasicBlock, si int, lb int64) int64 {
+		if len(b.Succs) != 2 || len(b.Instrs) == 0 {
+			return lb
+		}
+		ifi, ok := b.Instrs[len(b.Instrs)-1].(*ssa.If)
+		if !ok {
+			return lb
+		}
+		base, pos := peel(ifi.Cond)
+		bo, ok := base.(*ssa.BinOp)
+		if !ok {
+			return lb
+		}
+		var c int64
+		lenLeft := false
+		if isLenOf(bo.X) {
+			v, isC := constInt(bo.Y)
+			if !isC {
+				return lb
+			}
+			c, lenLeft = v, true
+		} else if isLenOf(bo.Y) {
+			v, isC := constInt(bo.X)
+			if !isC {
+				return lb
+			}
+			c = v
+		} else {
+			return lb
+		}
+		condTrue := (si == 0) == pos // the comparison itself is true on this edge
+		return refine(lb, func(v int64) bool {
+			var r bool
+			if lenLeft {
+				r = holds(bo.Op, v, c)
+			} else {
+				r = holds(bo.Op, c, v)
+			}
+			return r == condTrue
+		})
+	}
+	in := map[*ssa.BasicBlock]int64{}
+	for _, b := range fn.Blocks {
+		in[b] = dead
+	}
+	in[fn.Blocks[0]] = 0
+	for changed := true; changed; {
+		changed = false
+		for _, b := range fn.Blocks {
+			if in[b] == dead {
+				continue
+			}
+			for si, s := range b.Succs {
+				v := edge(b, si, in[b])
+				if v < in[s] {
+					in[s] = v
+					changed = true
+				}
+			}
+		}
+	}
+	lb := in[target.Block()]
+	if lb == dead || lb > limit {
+		return limit
+	}
+	return lb
 }
